@@ -1,6 +1,8 @@
 """C15 -- Gopher+ item information is faithful."""
 from __future__ import annotations
 
+import errno
+import os
 import re
 import typing
 
@@ -37,6 +39,19 @@ def gen_sidecar(rng) -> typing.Tuple[bytes, typing.List[str]]:
     return text.encode("utf-8", "surrogateescape"), [ln.rstrip() for ln in lines]
 
 
+def _utc(y, mo, d, h=0, mi=0, sec=0) -> int:
+    import calendar
+    return calendar.timegm((y, mo, d, h, mi, sec, 0, 0, 0))
+
+
+# modification times where calendars disagree with each other or with arithmetic: the days around a new year
+# (week-based vs calendar years, week 53), leap days, single-digit fields, the epoch, past 2038, month ends
+CALENDAR_EDGES = [_utc(2024, 12, 30), _utc(2024, 12, 31), _utc(2021, 1, 1), _utc(2021, 1, 3), _utc(2023, 1, 1), _utc(2019, 12, 30),
+                  _utc(2020, 12, 31), _utc(2016, 1, 2), _utc(2026, 12, 31), _utc(2027, 1, 1), _utc(2020, 2, 29), _utc(2024, 2, 29),
+                  _utc(2001, 2, 3, 4, 5, 6), _utc(1970, 1, 2), _utc(1999, 12, 31), _utc(2000, 1, 1), _utc(2038, 1, 19, 3, 14, 8),
+                  _utc(2040, 7, 1), _utc(2022, 3, 31), _utc(2022, 10, 30, 1), _utc(2022, 3, 27, 1)]
+
+
 def gen_dir(rng, scratch: str):
     t = Tree()
     items: typing.Dict[str, dict] = {}
@@ -47,6 +62,8 @@ def gen_dir(rng, scratch: str):
         size = rng.choice([0, 1, 1023, 1024, 1025, 5000, 10240, 70000])
         data = trees.gen_content(rng, size, rng.choice(["text", "binary"]))
         mtime = trees.FIXED_MTIME - 86400 * 400 * i - 3661 * i       # every item has a modification time of its own
+        if rng.random() < 0.5:
+            mtime = rng.choice(CALENDAR_EDGES) + rng.choice([0, 1, 3599, 43200, 86399])
         t.file("d/" + n, data, mtime=mtime)
         items[n] = {"kind": "file", "size": size, "mime": mimeref.mime_for_ext(ext), "data": data, "ea": {}, "mtime": mtime}
     for i in range(rng.randrange(0, 3)):
@@ -59,6 +76,14 @@ def gen_dir(rng, scratch: str):
                 data, lines = gen_sidecar(rng)
                 t.file(("d/%s/%s" % (n, ext)) if it["kind"] == "dir" else "d/" + n + ext, data)
                 it["ea"][block] = lines
+    # a sidecar that is there but cannot be read (foreign owner, mode 000, I/O error, deleted a moment ago): it
+    # contributes no block, the item's other sidecars are passed on as ever
+    for n, it in items.items():
+        if len(it["ea"]) >= 2 and rng.random() < 0.35:
+            ext, block = rng.choice([(e, b) for e, b in EAEXTS if b in it["ea"]])
+            del it["ea"][block]
+            it["unreadable"] = ((("d/%s/%s" % (n, ext)) if it["kind"] == "dir" else "d/" + n + ext), block,
+                                rng.choice([errno.EACCES, errno.EIO, errno.ENOENT]))
     # link-file and .cap entries that give some items an Abstract=: in the directory's listing that abstract
     # replaces the item's own, and nothing else of the item's attributes changes
     names_blocks = []
@@ -156,6 +181,38 @@ def check_item_blocks(chk: Check, name: str, it: typing.Optional[dict], blocks, 
     return True
 
 
+class OpenFaults:
+    """open() failing for chosen paths, as seen by the server's file-system layer (the name `open` is shadowed inside
+    pygopherd.handlers.base; harness-side only)."""
+
+    def __init__(self, errors: typing.Dict[bytes, int]):
+        self.errors = errors
+        self.hits = 0
+
+    def install(self):
+        if self.errors:
+            from pygopherd.handlers import base as basemod
+            basemod.open = self.open
+
+    def remove(self):
+        from pygopherd.handlers import base as basemod
+        try:
+            del basemod.open
+        except AttributeError:
+            pass
+
+    def open(self, path, *a, **kw):
+        try:
+            p = os.fsencode(path)
+        except TypeError:
+            return open(path, *a, **kw)
+        if p in self.errors:
+            self.hits += 1
+            e = self.errors[p]
+            raise OSError(e, os.strerror(e), os.fsdecode(p))
+        return open(path, *a, **kw)
+
+
 def run_case(chk: Check, sc: Scratch, idx: int) -> None:
     rng = chk.subrng("case", idx)
     t, items = gen_dir(rng, sc.path)
@@ -164,6 +221,9 @@ def run_case(chk: Check, sc: Scratch, idx: int) -> None:
     # cache on: the second $ of each directory is answered from the directory cache and must be as faithful
     site = driver.Site(root, overrides={("handlers.UMN.UMNDirHandler", "extstrip"): "none",
                                         ("handlers.dir.DirHandler", "cachetime"): "1000"})
+    shim = OpenFaults({os.path.join(os.fsencode(root), trees.tob(it["unreadable"][0])): it["unreadable"][2]
+                       for it in items.values() if "unreadable" in it})
+    shim.install()
     try:
         req, _ = reqs.render("gopher", b"/d")
         plain = site.request(req)
@@ -285,6 +345,12 @@ def run_case(chk: Check, sc: Scratch, idx: int) -> None:
         chk.case(sig, {"items": sorted(items), "sidecars": {k: sorted(it["ea"]) for k, it in items.items() if it["ea"]}}
                  if idx % 25 == 0 else None)
     finally:
+        shim.remove()
+        if shim.errors:
+            chk.count("unreadable_sidecars", len(shim.errors))
+            chk.count("opens_refused_for_unreadable_sidecars", shim.hits)
+            if not shim.hits:
+                chk.note_inconclusive("an unreadable sidecar was never opened")
         site.close()
         import shutil
         shutil.rmtree(root, ignore_errors=True)
